@@ -2,9 +2,11 @@
   C15 — Workflow field mappings (compose/field_mapping.go, compose/workflow.go).
 
   Executable model, core Lean only.  Source facts are explicit parameters (`TrieFacts`,
-  `TakeFacts`); `EinoV/Expected/C15.lean` holds the values the theorems are proved for.
+  `TakeFacts`, `ValidateFacts`, `ChainFacts`); `EinoV/Expected/C15.lean` holds the values the
+  theorems are proved for.
 
-  * `FTy` / `FVal`      the type and value universe (structs, pointers, map[string]T, any, basics)
+  * `FTy` / `FVal`      the type and value universe (structs, pointers, map[string]T, any, basics,
+                        and slices / funcs / channels as opaque leaves `opq`)
   * `take`              `fieldMap` + `takeOne`: extraction along a source path
   * `assign`            `assignOne`: assignment along a target path, instantiating pointers and
                         maps on the way, expanding `any` to `map[string]any`
@@ -13,6 +15,8 @@
                         parametrised by its structural facts
   * `noOverlap`         the order-free specification
   * `validate`          the static checker (`validateFieldMapping`) and its run-time checkers
+                        (`runtimeCheck`: does a value pass; `checkPanics`: does the checker of a
+                        source path through an interface dereference the nil `reflect.Type`)
 
   Struct values are kept aligned with their type (fields in declaration order); navigation is
   type-directed and positional, exactly like `reflect` (a `reflect.Value` cannot disagree with
@@ -26,6 +30,14 @@ abbrev Path := List Seg
 
 /-! ## types and values -/
 
+/-- kinds the field mapping code never navigates and only ever moves as a whole: `[]T`, `func…`,
+    `chan T`.  All three have a nil value in Go; the code's own list of kinds "for which an untyped
+    nil is acceptable" (`reflect.Map, Slice, Ptr, Interface`, three copies in field_mapping.go) has
+    the slice only. -/
+inductive OKind where
+  | slice | func | chan
+  deriving DecidableEq, Repr, Inhabited
+
 mutual
 inductive FTy where
   | str | int
@@ -33,6 +45,7 @@ inductive FTy where
   | ptr (t : FTy)
   | map (t : FTy)                       -- map[string]t
   | struct (name : String) (fs : FFields)
+  | opq (k : OKind) (name : String)     -- an opaque leaf type, identified by its Go spelling
   deriving DecidableEq, Repr, Inhabited
 inductive FFields where
   | nil
@@ -42,8 +55,8 @@ end
 
 mutual
 inductive FVal where
-  | str (s : String) | int (i : Int)
-  | nil                                 -- nil pointer / nil map / nil interface
+  | str (s : String) | int (i : Int)    -- (a non-nil value of an opaque type is `str token`)
+  | nil                                 -- nil pointer / nil map / nil interface / nil slice, func, chan
   | ptr (v : FVal)                      -- non-nil pointer
   | obj (fs : FKVs)                     -- struct value, fields in declaration order
   | map (kvs : FKVs)                    -- non-nil map, keys kept sorted by `FKVs.ins`
@@ -68,6 +81,7 @@ def zero : FTy → FVal
   | .ptr _ => .nil
   | .map _ => .nil
   | .struct _ fs => .obj (zeroFields fs)
+  | .opq _ _ => .nil
 def zeroFields : FFields → FKVs
   | .nil => .nil
   | .cons n t r => .cons n (zero t) (zeroFields r)
@@ -111,9 +125,12 @@ end FKVs
 /-- `reflect.Type.AssignableTo` in this universe: identical types, or the target is `any` -/
 def assignable (src dst : FTy) : Bool := dst == .any || src == dst
 
-/-- kinds whose zero value is nil (`reflect.Map, Slice, Ptr, Interface`) -/
+/-- the kinds for which the code accepts an untyped nil (`reflect.Map, Slice, Ptr, Interface`:
+    the run-time checkers of `validateFieldMapping`, `checkAndExtractToField`,
+    `checkAndExtractToMapKey`); func and chan are not among them -/
 def nilable : FTy → Bool
   | .any | .ptr _ | .map _ => true
+  | .opq .slice _ => true
   | _ => false
 
 /-- what is written into a slot of static type `st`: `none` = not storable -/
@@ -430,6 +447,9 @@ structure ValidateFacts where
   checkerPerMapping : Bool
   /-- the checker's stream form keeps the chunk type `map[string]any` -/
   streamCheckerKeepsChunkType : Bool
+  /-- the run-time checker installed for a source path that crosses an interface before its last
+      segment tests `reflect.TypeOf(a) == nil` before it calls a method on it -/
+  ifaceCheckerGuardsNil : Bool
   deriving DecidableEq, Repr
 
 /-- `checkAndExtractFieldType`: `(type reached, intermediate interface)`; `none` = error -/
@@ -470,9 +490,12 @@ structure Mapping where
   dst : Path
   deriving DecidableEq, Repr
 
-/-- per mapping: `none` = static error; `some none` = no run-time check; `some (some st)` =
-    run-time checker against the successor field type `st` (`strict` = the interface-path
-    checker, which does not admit a nil value) -/
+/-- per mapping: `none` = static error; `some none` = no run-time check; `some (some (st, viaPath))`
+    = run-time checker against the successor field type `st`; `viaPath` = it is the checker of a
+    source path that crosses an interface before its last segment
+    (`predecessorIntermediateInterface`), the other one is the `assignableTypeMay` checker.  Both
+    demand the same: a typed value must be assignable, an untyped nil is admitted exactly for the
+    `nilable` kinds. -/
 def validateOne (vf : ValidateFacts) (pt st : FTy) (m : Mapping) : Option (Option (FTy × Bool)) :=
   match extractTy vf.rejectsTrailingSegment pt m.src, extractTy vf.rejectsTrailingSegment st m.dst with
   | some (pf, pI), some (sf, sI) =>
@@ -493,14 +516,22 @@ def validateEdge (vf : ValidateFacts) (pt st : FTy) (ms : List Mapping) : Bool :
   else if !fromAll && !structOrMap pt then false
   else ms.all (fun m => (validateOne vf pt st m).isSome)
 
-/-- the run-time checker installed for a mapping -/
+/-- the run-time checker installed for a mapping: does the value pass -/
 def runtimeCheck (chk : Option (FTy × Bool)) (a : Taken) : Bool :=
   match chk with
   | none => true
-  | some (st, strict) =>
+  | some (st, _) =>
     match a with
-    | none => !strict && nilable st
+    | none => nilable st
     | some (ty, _) => assignable ty st
+
+/-- … does it panic: the interface-path checker calls `reflect.TypeOf(a).AssignableTo(…)`; on an
+    untyped nil `reflect.TypeOf` is the nil `reflect.Type` and the call dereferences it, unless the
+    checker looks first -/
+def checkPanics (vf : ValidateFacts) (chk : Option (FTy × Bool)) (a : Taken) : Bool :=
+  match chk, a with
+  | some (_, true), none => !vf.ifaceCheckerGuardsNil
+  | _, _ => false
 
 /-! ## one edge, one run -/
 
@@ -541,6 +572,10 @@ def checkerOf (vf : ValidateFacts) (pt st : FTy) (ms : List Mapping) (m : Mappin
 def checkE (vf : ValidateFacts) (pt st : FTy) (ms : List Mapping) (l : List (Mapping × Taken)) : Bool :=
   l.all (fun (m, a) => runtimeCheck (checkerOf vf pt st ms m) a)
 
+/-- some checker of the edge panics on its value -/
+def checkPanicE (vf : ValidateFacts) (pt st : FTy) (ms : List Mapping) (l : List (Mapping × Taken)) : Bool :=
+  l.any (fun (m, a) => checkPanics vf (checkerOf vf pt st ms m) a)
+
 /-- one data edge into the successor: predecessor output type and value, its mappings -/
 structure Edge where
   pt : FTy
@@ -556,7 +591,8 @@ def edgesMap (f : TakeFacts) (vf : ValidateFacts) (allowMissing : Bool) (st : FT
     match fieldMapE f allowMissing e.pt e.v e.ms with
     | .error err => .error err
     | .ok l =>
-      if checkE vf e.pt st e.ms l then
+      if checkPanicE vf e.pt st e.ms l then .error .panic
+      else if checkE vf e.pt st e.ms l then
         match edgesMap f vf allowMissing st rest with
         | .ok l' => .ok (l.map (fun (m, a) => (m.dst, a)) ++ l')
         | .error err => .error err
